@@ -390,8 +390,8 @@ class HistoryExec:
             rng = np.random.default_rng(op['new_seed'])
         new = DirectSimulation(code, noise, dec, sp['rate'], rng=rng,
                                verbose=False)
-        if data['inputs'] != _json.loads(_json.dumps(new._inputs,
-                                                     cls=NumpyEncoder)):
+        if data['inputs'] != _json.loads(_json.dumps(
+                new.get_results_to_save()['inputs'], cls=NumpyEncoder)):
             raise HarnessError('rebuilt simulation has other inputs')
         new.load_results_from_dict(data)
         self.objs[i] = new
